@@ -217,6 +217,13 @@ def replay(hist, n, ra, rt, dt, ignore_exc, variant, unix=False, real=False, fix
             if real:
                 # unreachable = refuses connections (and resets the open one), or takes requests and never answers
                 net.servers[servers[step[1] - 1]].mode = {"up": "up", "mc": "mcerr"}.get(step[2]) or ["refuse", "hang"][(variant + len(out)) % 2]
+        elif step[0] == "close":
+            # (not used by the generated histories: close() goes through the same failover wrapper as a call -- it can take a
+            # server out, and a close() that "succeeds" on a failing server clears its failure record -- so histories with
+            # close() in them leave the alphabet the property quantifies over; see DESIGN 8.3)
+            del env.events[:]
+            hc.close()
+            out += [e for e in env.events if e.get("e") in ("add", "rm")]
         elif step[0] == "remove_server":
             # the caller uses the public remove_server() on a server that has not failed: whether the library accepts that or
             # raises, a call that fails must not have changed the rotation (the hasher seam reports an `rm` if it did)
